@@ -531,8 +531,20 @@ func (w *spWorld) oracleNoLeak(when string) {
 }
 
 // spCall runs one API call of the library with a watchdog: a call that does not return is reported as a harness
-// problem (inconclusive, never a violation) and stops the run.
-var spHung atomic.Value
+// problem (inconclusive, never a violation); the run goes on with the next history and stops after the third.
+var spHungCount int32
+
+type spHungT struct{}
+
+var spHung spHungT
+
+func (spHungT) Store(string) { atomic.AddInt32(&spHungCount, 1) }
+func (spHungT) Load() interface{} {
+	if atomic.LoadInt32(&spHungCount) >= 3 {
+		return true
+	}
+	return nil
+}
 
 func spCall(what string, f func()) bool {
 	done := make(chan struct{})
@@ -540,8 +552,8 @@ func spCall(what string, f func()) bool {
 	select {
 	case <-done:
 		return true
-	case <-time.After(60 * time.Second):
-		spHung.Store(what + " did not return within 60 s")
+	case <-time.After(30 * time.Second):
+		spHung.Store(what + " did not return within 30 s")
 		return false
 	}
 }
@@ -561,7 +573,7 @@ func (w *spWorld) do(st spStep) bool {
 		var s *Stream
 		var err error
 		if !spCall("GetStream", func() { s, err = w.sm.GetStream() }) {
-			w.fail("hang", "GetStream did not return within 60 s")
+			w.fail("hang", "GetStream did not return within 30 s")
 			return true
 		}
 		if err != nil || s == nil {
@@ -620,7 +632,7 @@ func (w *spWorld) do(st spStep) bool {
 		w.pooledOpen[s] = s.IsOpen()
 		w.dirtyPut[s] = s.sendBuf.len > 0
 		if !spCall("PutBack", func() { w.sm.PutBack(s) }) {
-			w.fail("hang", "PutBack did not return within 60 s")
+			w.fail("hang", "PutBack did not return within 30 s")
 			return true
 		}
 		w.holder[st.C-1] = 0
@@ -817,7 +829,10 @@ func (w *spWorld) do(st spStep) bool {
 		if !w.curPair().A.IsClosed() {
 			return false
 		}
-		w.pool.close()
+		if !spCall("streamPool.close", func() { w.pool.close() }) {
+			w.fail("hang", "streamPool.close did not return within 30 s")
+			return true
+		}
 		w.settleAll()
 		return true
 	case "Rebuild":
@@ -858,7 +873,13 @@ func (w *spWorld) finish() {
 			}
 		}
 	}
+	popped := map[*Stream]bool{}
 	for s := w.pool.pop(); s != nil; s = w.pool.pop() {
+		if popped[s] {
+			w.fail("exclusive", fmt.Sprintf("while the pool is emptied it hands out stream %d a second time", w.idOf(s)))
+			return
+		}
+		popped[s] = true
 		s.Close()
 	}
 	w.settleAll()
@@ -1142,7 +1163,7 @@ func spRunConcurrent(job spConcJob, run int, res *spResult) {
 	if len(res.ConcTraces) < 64 {
 		res.ConcTraces = append(res.ConcTraces, events)
 	}
-	for s := pool.pop(); s != nil; s = pool.pop() {
+	for i, s := 0, pool.pop(); s != nil && i <= job.Cap; i, s = i+1, pool.pop() {
 		s.Close()
 	}
 }
